@@ -172,3 +172,24 @@ Proof. reflexivity. Qed.
 Example ex_unranked :
   has_condorcet (mkInst [(1, []); (2, []); (3, [])]%N 3 2 [([[1]; [2]], 2)]%N SOI) false = Ok false.
 Proof. reflexivity. Qed.
+
+(* Reading decision made explicit: an alternative that a ballot does not rank is NOT compared by that voter.
+   Two voters with the ballot 1 > 2 over the alternatives {1,2,3}: pairwise[1][3] = 0 (and [3][1] = 0), although
+   under the "unranked alternatives are ranked last" reading of an incomplete order it would be 2.
+   pairwise_spec is stated (and holds) for the former reading, which is what the code computes. *)
+Example pairwise_unranked_is_not_compared :
+  let i := mkInst [(1, []); (2, []); (3, [])]%N 3 2 [([[1]; [2]], 2)]%N SOI in
+  wf_inst i /\
+  exists t, pairwise_scores i = Ok t /\ tget t 1%N 2%N = Some 2 /\ tget t 1%N 3%N = Some 0 /\ tget t 3%N 1%N = Some 0.
+Proof.
+  split.
+  - unfold wf_inst, wf_order, alts; simpl. repeat split.
+    + repeat constructor.
+    + repeat (constructor; [simpl; intuition discriminate|]). constructor.
+    + repeat (constructor; [simpl; intuition discriminate|]). constructor.
+    + constructor; [|constructor].
+      split; [split; [repeat (constructor; [simpl; intuition discriminate|]); constructor
+                     | repeat (constructor; [discriminate|]); constructor]
+             | intros x Hx; simpl in *; intuition].
+  - eexists. split; [reflexivity|]. repeat split.
+Qed.
